@@ -6,6 +6,19 @@ NOTES = ('Static analysis only: every verdict is computed from the ast of /repo/
          'Exit 2 + ANALYSIS-ERROR means the analysis could not decide (never a verdict).')
 
 CHECKS = {
+    'C02': {
+        'level': 'The self-consistency clauses of the full_output record (f_value == f(x), error_estimate >= 0, final_step one of the '
+                 'generated steps, one entry per result entry, field order) are decided on every path of abstract runs of __call__ of the '
+                 'five classes in a data-dependence / sign / provenance domain. The honesty clause (true error <= c * estimate) is not decided.',
+        'note': 'Numerical honesty of the estimate is outside static reach and is not claimed. Trusted: abstract interpreter, numpy summaries.',
+        'technique': 'abstract interpretation of __call__ over a data-dependence + sign + selection-provenance domain; both sides of undetermined branches analysed',
+    },
+    'C08': {
+        'level': 'Data dependence of every output element on the input elements is computed through the whole Derivative.__call__ pipeline '
+                 '(all numpy operations summarised per axis) for x of rank 0..3; shape preservation and argument forwarding are decided in the same runs.',
+        'note': 'Bit-identity of third-party column-wise kernels is trusted. The zero-step filter of the basic generators is a tabled whole-array predicate.',
+        'technique': 'abstract interpretation of Derivative.__call__ over a data-dependence (column separability) domain with concrete shapes',
+    },
     'C01': {
         'level': 'Formal (exact arithmetic) correctness of the whole first half of the Derivative pipeline for every accepted '
                  '(method, n, order): table level identities for all configuration classes plus end-to-end abstract runs of '
